@@ -10,18 +10,29 @@ impl=subprocess.run([H,"run",s],input=cases,stdout=subprocess.PIPE).stdout.decod
 mod=subprocess.run([D],input=cases,stdout=subprocess.PIPE).stdout.decode()
 I={json.loads(l)["id"]:json.loads(l)["i"] for l in impl.split("\n") if l}
 M={json.loads(l)["id"]:json.loads(l) for l in mod.split("\n") if l}
+import importlib.machinery, importlib.util
+_l=importlib.machinery.SourceFileLoader("yvcheck",V+"/bin/check"); _sp=importlib.util.spec_from_loader("yvcheck",_l); chk=importlib.util.module_from_spec(_sp); _l.exec_module(chk)
+PROJ=os.environ.get("PROJ")
 groups=collections.defaultdict(list)
 tot=0
 for l in cases.decode().split("\n"):
     if not l: continue
     c=json.loads(l); tot+=1
     i=I.get(c["id"],"MISSING"); m=M.get(c["id"],{}); mm=m.get("m","MISSING"); ss=m.get("s",mm); dc=m.get("dc",False)
-    if i!=mm or (not dc and i!=ss):
-        key=("M" if i!=mm else "")+("S" if (not dc and i!=ss) else "")
+    ip=chk.project(PROJ,i) if PROJ else i
+    if i!=mm or (not dc and ip!=ss):
+        key=("M" if i!=mm else "")+("S" if (not dc and ip!=ss) else "")
         groups[key].append((c,i,mm,ss))
 print("total",tot,{k:len(v) for k,v in groups.items()})
 for k,v in groups.items():
     v.sort(key=lambda x:len(json.dumps(x[0])))
     for c,i,mm,ss in v[:int(os.environ.get("SHOW","12"))]:
+        if "paths" in c and os.environ.get("ITEM","1")=="1":
+            ii=i.split(";"); mi=mm.split(";"); si=ss.split(";"); pi=(chk.project(PROJ,i) if PROJ else i).split(";")
+            for x in range(len(ii)):
+                if x<len(mi) and x<len(si) and (ii[x]!=mi[x] or pi[x]!=si[x]):
+                    print(k,"path",c["paths"][x//2],"allowInc",x%2==1); print("    impl :",ii[x],"=>",pi[x]); print("    model:",mi[x]); print("    spec :",si[x]); break
+            else: print(k,"(length mismatch)",i[:200],mm[:200],ss[:200])
+            continue
         print(k, c.get("text") or json.dumps({a:b for a,b in c.items() if a not in("id","k")},ensure_ascii=False)); print("    impl :",i); print("    model:",mm); 
         if ss!=mm: print("    spec :",ss)
